@@ -145,12 +145,16 @@ int sim_pthread_join(pthread_t t, void **ret) {
 		return ESRCH;
 	}
 	if ((int)id == sim_self()) return EDEADLK;
-	if (S.fb[id].joined) {
-		sim_violation("join-invalid", "pthread_join on fiber %ld (%s) which was already joined", id, S.fb[id].name);
-		return EINVAL;
+	if (S.fb[id].joined == 2) {
+		/* real pthreads: undefined (the descriptor was released by the first join); reported at the end of the run, the call
+		 * answers ESRCH so that the run can go on */
+		sim_violation_deferred("join-twice", "pthread_join on fiber %ld (%s) whose join already completed (its thread descriptor is gone: undefined behaviour)", id, S.fb[id].name);
+		return ESRCH;
 	}
-	S.fb[id].joined = 1; /* a second concurrent join is undefined behaviour as well */
+	if (S.fb[id].joined == 1) { sim_probe("pthread_join.concurrent_EINVAL"); return EINVAL; } /* glibc: another thread is already waiting to join */
+	S.fb[id].joined = 1;
 	if (S.fb[id].st != FB_DONE) sim_block(pred_done, (void *)(intptr_t)id, 0, "pthread_join.wait");
+	S.fb[id].joined = 2;
 	if (S.fb[id].is_pool) S.pool_joined++;
 	if (ret) *ret = S.fb[id].ret;
 	sim_log("joined fiber %ld", id);
@@ -530,6 +534,7 @@ int sim_close(int fd) {
 	sim_fd_rec_t *r = sim_fd(fd);
 	int kind, rc, err;
 	sim_yield("close");
+	if (fd < 0) { sim_probe("close.negative_fd"); errno = EBADF; return -1; } /* harmless: close(-1) on an error path */
 	if (!r || r->kind == FDK_NONE) {
 		sim_violation("close-bad-fd", "library closed descriptor %d which is not open in the ledger (double close or stale/zeroed descriptor)", fd);
 		errno = EBADF; return -1;
